@@ -116,7 +116,7 @@ pub fn dispatch(prop: &str, tier: &str) -> i32 {
         "C16" => {
             let mut cfg = crate::base_cfg("C16", tier);
             let asan = std::env::var("VERIF_FLAVOR").map(|f| f == "asan").unwrap_or(false);
-            cfg.runs = if quick { if asan { 1200 } else { 6000 } } else if asan { 60_000 } else { 400_000 };
+            cfg.runs = if quick { if asan { 250 } else { 6000 } } else if asan { 60_000 } else { 400_000 };
             cfg.rule = format!("memory-safety monitor ({}): one run = one world of one of eight workloads (aggregate-, join-, sort-, subquery-focused and general generated queries against tables of up to 120 rows incl. strings around the 12-byte inline threshold, DDL/DML histories with tiny table segments, harness-written Parquet files, generated CSV files) under random knobs (partitions 1-16, batch 1-8192) and scheduling policies. A run is a violation iff an engine assertion or a Rust safety check panics, or the process dies (located by the supervising parent). Non-trivial = >=2 scheduling decisions with choice and >=1 Pending poll, or >=1 fired fault; distinct = distinct (knobs, policy, event-trace digest).", if asan { "AddressSanitizer build: heap-buffer-overflow, use-after-free, double free abort the child" } else { "build with debug assertions and overflow checks: engine debug_assert!, raw-pointer alignment/null checks, slice bounds" });
             cfg.assumptions = vec!["this layer executes one poll at a time on one thread: data races between partitions inside a poll are not observable here (see the Miri part and DESIGN 3 C16)".into(), "wrong rows are not counted here".into()];
             if asan {
